@@ -285,9 +285,14 @@ func runForeign(c jobCase) {
 		runIntro(file, true)
 	}
 	for _, rs := range c.Reads {
-		if rs.Mode == "chunk" {
-			res := runReader(file, &source{data: file, chunk: rs.Chunk}, c.Poff, limit, false)
+		switch rs.Mode {
+		case "chunk":
+			res := runReader(file, &source{data: file, chunk: rs.Chunk, eofData: rs.EOFData}, c.Poff, limit, false)
 			emit(res.event(mode, event{"saferows": safeRows, "feature": feature, "chunk": rs.Chunk}))
+		case "rand":
+			l := &lcg{s: uint64(rs.Seed)}
+			res := runReader(file, &source{data: file, randShort: func() int { return 1 + int(l.next()%9) }}, c.Poff, limit, false)
+			emit(res.event(mode, event{"saferows": safeRows, "feature": feature, "chunk": -1}))
 		}
 	}
 }
